@@ -347,6 +347,9 @@ func (b *Backoffer) UpdateUsingForked(forked *Backoffer) {
 			b.errorsNum = forked.errorsNum
 			b.backoffSleepMS = forked.backoffSleepMS
 			b.backoffTimes = forked.backoffTimes
+			// the sleep accounting above is keyed by config name: keep the configs it refers to, otherwise
+			// longestSleepCfg cannot resolve the longest sleeper when the budget is exhausted later
+			b.configs = forked.configs
 			break
 		}
 	}
